@@ -35,13 +35,23 @@ type verifVal struct {
 	bs  []byte
 }
 
+// verifStrLen is the length of the string / bytes values drawn by verifNewVal (SLEN parameter of the scalar
+// harness: a length prefix of more than one byte starts at 128).
+var verifStrLen = 1
+
 func verifNewVal(k proto.Type, narrow bool) verifVal {
 	s := verifVal{k: k}
 	switch k {
 	case proto.STRING:
 		s.bs = []byte{vrt.U8() & 0x7f}
+		for i := 1; i < verifStrLen; i++ {
+			s.bs = append(s.bs, 'z')
+		}
 	case proto.BYTE:
 		s.bs = vrt.Bytes(1)
+		for i := 1; i < verifStrLen; i++ {
+			s.bs = append(s.bs, 0xF0)
+		}
 	case proto.BOOL:
 		if vrt.Bool() {
 			s.raw = 1
@@ -137,6 +147,7 @@ func verifValIs(out []byte, n vrt.JNode, s verifVal, opts conv.Options, label st
 // VerifC08_Scalar: message{int32 p=1; K x_val=2 (json name xVal); string s=3}.
 func VerifC08_Scalar() {
 	k := proto.Type(vrt.Param("K"))
+	verifStrLen = vrt.Param("SLEN")
 	msg := proto.VerifNewMessage("M")
 	proto.VerifAddField(msg, 1, "p", "p", proto.VerifBasic(proto.INT32), false)
 	proto.VerifAddField(msg, 2, "x_val", "xVal", proto.VerifBasic(k), false)
@@ -186,6 +197,7 @@ func VerifC08_Scalar() {
 
 // VerifC08_List: message{repeated K xs=2} with CNT elements in protobuf-go layout.
 func VerifC08_List() {
+	verifStrLen = 1
 	k := proto.Type(vrt.Param("K"))
 	cnt := vrt.Param("CNT")
 	msg := proto.VerifNewMessage("M")
@@ -193,7 +205,7 @@ func VerifC08_List() {
 	proto.VerifAddField(msg, 2, "xs", "xs", proto.VerifBasic(k), true)
 	proto.VerifAddField(msg, 3, "s", "s", proto.VerifBasic(proto.STRING), false)
 	proto.VerifBuild(msg)
-	opts := conv.Options{}
+	opts := conv.Options{Int642String: vrt.Bool()}
 	var b []byte
 	vals := make([]verifVal, cnt)
 	for i := range vals {
@@ -243,6 +255,7 @@ func VerifC08_List() {
 
 // VerifC08_Map: message{map<KT,VT> m=2} with CNT entries.
 func VerifC08_Map() {
+	verifStrLen = 1
 	kt := proto.Type(vrt.Param("KT"))
 	vt := proto.Type(vrt.Param("VT"))
 	cnt := vrt.Param("CNT")
@@ -250,7 +263,7 @@ func VerifC08_Map() {
 	proto.VerifAddMap(msg, 2, "m", "m", proto.VerifBasic(kt), proto.VerifBasic(vt))
 	proto.VerifAddField(msg, 3, "s", "s", proto.VerifBasic(proto.STRING), false)
 	proto.VerifBuild(msg)
-	opts := conv.Options{}
+	opts := conv.Options{Int642String: vrt.Bool()}
 	var b []byte
 	keys := make([]verifVal, cnt)
 	vals := make([]verifVal, cnt)
@@ -284,6 +297,9 @@ func VerifC08_Map() {
 		for i := range keys {
 			// keys are JSON strings holding the stringified key
 			verifValIs(out, m.Keys[i], keys[i], opts, "C08.map.key")
+			if vt == proto.INT64 && opts.Int642String {
+				vrt.Assert(m.Elems[i].Kind == vrt.JString, "C08.map.value.int64-as-string.kind")
+			}
 			verifValIs(out, m.Elems[i], vals[i], opts, "C08.map.value")
 		}
 	}
@@ -296,6 +312,7 @@ func init() { vrt.Register("VerifC08_Nested", VerifC08_Nested) }
 // sibling carries the same field number as the inner container, as protobuf-go emits it right
 // after the nested message.
 func VerifC08_Nested() {
+	verifStrLen = 1
 	shape := vrt.Param("SHAPE")
 	cnt := vrt.Param("CNT")
 	inner := proto.VerifNewMessage("Inner")
